@@ -218,7 +218,7 @@ func (e *env) newSigner(eps []int, retries uint) (*crypki.Signer, error) {
 func genRequest(r *rand.Rand) *proto.SSHCertificateSigningRequest {
 	req := &proto.SSHCertificateSigningRequest{
 		KeyMeta:    &proto.KeyMeta{Identifier: core.Pick(r, "ssh-user-key", "key-1", "")},
-		Principals: core.GenTextList(r, 3),
+		Principals: core.GenTextList(r, core.Pick(r, 3, 3, 8, 16)),
 		PublicKey:  "ssh-ed25519 AAAAC3NzaC1lZDI1NTE5AAAAIB" + core.GenText(r),
 		Validity:   uint64(r.Intn(100000)),
 		KeyId:      core.GenText(r),
@@ -228,6 +228,14 @@ func genRequest(r *rand.Rand) *proto.SSHCertificateSigningRequest {
 	}
 	if r.Intn(3) == 0 {
 		req.CriticalOptions = map[string]string{"source-address": "10.0.0.0/8", core.GenText(r): core.GenText(r)}
+	}
+	if r.Intn(3) == 0 { // long principal lists, with spare capacity behind them (aliasing by append shows only then)
+		n := 4 + r.Intn(6)
+		ps := make([]string, 0, n+4)
+		for i := 0; i < n; i++ {
+			ps = append(ps, fmt.Sprintf("principal-%d-%s", i, core.GenText(r)))
+		}
+		req.Principals = ps
 	}
 	for i, p := range req.Principals { // protobuf strings must be valid UTF-8; the generators only make valid text
 		req.Principals[i] = strings.ToValidUTF8(p, "?")
